@@ -503,7 +503,7 @@ async fn scn_random(seed: u64, n: usize, neg: bool, storm: bool) -> Result<Strin
             _ => r.range(6000, 60000),
         };
         if storm {
-            // submit storm: every caller task is aborted from outside at a random instant within the
+            // submit storm: up to 900 caller tasks are aborted from outside at a random instant within the
             // first 3 ms, while the other submissions are still racing for the 1024 channel slots
             // (allocate id -> wait for a slot -> push): the abort lands before, in or after the send
             how = if droppable <= 900 && how <= 6 { 5 } else { 11 };
@@ -622,11 +622,17 @@ async fn scn_exhaust(seed: u64, fill: usize, extra: usize, old: usize, young: us
     if env.received.load(Ordering::SeqCst) < fill {
         // the machine stalled: the held answers are about to be released before all requests are at the
         // mock -- this attempt cannot show exhaustion; the caller retries with a longer hold
-        for h in handles.into_iter().flatten() {
-            h.abort();
+        // (its history is kept and judged all the same: `late`)
+        for (i, h) in handles.into_iter().enumerate() {
+            if let Some(h) = h {
+                h.abort();
+                let _ = h.await;
+                env.ev(2, format!("c{:x}", i + 1));
+            }
         }
-        env.cluster.shutdown();
-        return Err("window-missed".into());
+        env.settle(Duration::from_millis(30), Duration::from_secs(5)).await;
+        let env = Arc::try_unwrap(env).map_err(|_| "env-still-shared".to_string())?;
+        return Ok(format!("late {}", env.finish(&[])));
     }
     if std::env::var("C02_E2E_DEBUG").is_ok() {
         eprintln!("fill {} received {} after {} ms", fill, env.received.load(Ordering::SeqCst), t.elapsed().as_millis());
@@ -731,11 +737,18 @@ async fn scn_threshold(seed: u64, abandon: usize, live: usize, hold_ms: u64) -> 
         tokio::time::sleep(Duration::from_millis(2)).await;
     }
     if env.received.load(Ordering::SeqCst) < total {
-        for h in handles.into_iter().flatten() {
-            h.abort();
+        // the machine stalled: not all frames are at the mock in time; the attempt is ended, its history is
+        // kept and judged (`late`), the caller runs another attempt with a longer hold
+        for (i, h) in handles.into_iter().enumerate() {
+            if let Some(h) = h {
+                h.abort();
+                let _ = h.await;
+                env.ev(2, format!("c{:x}", i + 1));
+            }
         }
-        env.cluster.shutdown();
-        return Err("window-missed".into());
+        env.settle(Duration::from_millis(30), Duration::from_secs(5)).await;
+        let env = Arc::try_unwrap(env).map_err(|_| "env-still-shared".to_string())?;
+        return Ok(format!("late {}", env.finish(&[])));
     }
     // which callers are abandoned: a random subset of size `abandon`
     let mut idx: Vec<usize> = (0..total).collect();
@@ -1155,8 +1168,9 @@ async fn scn_oversize(seed: u64, victims: usize, len: u64) -> Result<String, Str
     Ok(env.finish(&[(bs, big_marker)]))
 }
 
-/// One e2e case line -> observation.  Kinds: P <seed> <n> | R <seed> <n> <threads> |
-/// X <seed> <fill> <extra> <old> <young> <wait_ms> <hold_ms> | G <seed> <victims> <len> | O ...
+/// One e2e case line -> observation.  Kinds: P <seed> <n> | R/N <seed> <n> <threads> | S <seed> <n> |
+/// X <seed> <fill> <extra> <old> <young> <wait_ms> <hold_ms> | K <seed> <abandon> <live> <hold_ms> |
+/// G <seed> <victims> <len> | O <chunk> <frames>
 pub fn run_case(case: &str) -> Option<String> {
     let f: Vec<&str> = case.split_whitespace().collect();
     let num = |i: usize| -> u64 { f.get(i).and_then(|s| s.parse().ok()).unwrap_or(0) };
@@ -1165,46 +1179,45 @@ pub fn run_case(case: &str) -> Option<String> {
         Some("R") => rt(num(3).max(1) as usize).block_on(scn_random(num(1), num(2) as usize, false, false)),
         Some("S") => rt(3).block_on(scn_random(num(1), num(2) as usize, false, true)),
         Some("N") => rt(num(3).max(1) as usize).block_on(scn_random(num(1), num(2) as usize, true, false)),
-        Some("K") => {
-            // with more than 1024 abandoned callers the connection must end; if a stalled machine let the
-            // answers go before a tick saw the old orphans, the attempt is kept (judged by the driver as a
-            // run without break) and another one follows with a longer hold: `<history> NEXT <history>`
+        Some("K") | Some("X") => {
+            // Up to three attempts (hold x1, x2, x4).  An attempt that missed its window (`late`: frames not
+            // at the mock in time / release before the second batch of extras; K: the connection had to end
+            // and did not, or ended while released answers were being read) is kept and judged, and another
+            // attempt follows: `<history> NEXT <history>`.  If no attempt met its window the case ends with
+            // `NEXT setup-error …`: the kept histories are judged, the scenario counts as not run.
+            let is_k = f[0] == "K";
             let mut parts: Vec<String> = Vec::new();
-            let mut res = Err("not-run".to_string());
+            let mut met = false;
+            let mut last_err = "window-missed".to_string();
             for attempt in 0..3u64 {
-                match rt(2).block_on(scn_threshold(num(1), num(2) as usize, num(3) as usize, num(4) << attempt)) {
-                    Ok(h) => {
-                        let again = num(2) > 1024 && !h.contains(",close") && attempt < 2;
-                        parts.push(h);
-                        res = Ok(parts.join(" NEXT "));
-                        if !again {
-                            break;
-                        }
-                    }
-                    Err(e) => res = if parts.is_empty() { Err(e) } else { Ok(parts.join(" NEXT ")) },
-                }
-            }
-            res
-        }
-        Some("X") => {
-            // attempts that missed their window are kept (judged by the driver) and followed by another
-            // attempt with a longer hold: `<history> NEXT <history>`
-            let mut parts: Vec<String> = Vec::new();
-            let mut res = Err("not-run".to_string());
-            for attempt in 0..3u64 {
-                match rt(2).block_on(scn_exhaust(num(1), num(2) as usize, num(3) as usize, num(4) as usize, num(5) as usize, num(6), num(7) << attempt)) {
+                let r = if is_k {
+                    rt(2).block_on(scn_threshold(num(1), num(2) as usize, num(3) as usize, num(4) << attempt))
+                } else {
+                    rt(2).block_on(scn_exhaust(num(1), num(2) as usize, num(3) as usize, num(4) as usize, num(5) as usize, num(6), num(7) << attempt))
+                };
+                match r {
                     Ok(h) => {
                         let late = h.starts_with("late ");
-                        parts.push(h.strip_prefix("late ").unwrap_or(&h).to_string());
-                        res = Ok(parts.join(" NEXT "));
-                        if !late {
+                        let h = h.strip_prefix("late ").unwrap_or(&h).to_string();
+                        let closed = h.contains(",close");
+                        let rows = h.split(',').any(|t| t.starts_with('d') && t.contains(".r"));
+                        let again = late || (is_k && num(2) > 1024 && (!closed || rows));
+                        parts.push(h);
+                        if !again {
+                            met = true;
                             break;
                         }
                     }
-                    Err(e) => res = if parts.is_empty() { Err(e) } else { Ok(parts.join(" NEXT ")) },
+                    Err(e) => last_err = e,
                 }
             }
-            res
+            if parts.is_empty() {
+                Err(last_err)
+            } else if met {
+                Ok(parts.join(" NEXT "))
+            } else {
+                Ok(format!("{} NEXT setup-error {}", parts.join(" NEXT "), last_err.replace(' ', "_")))
+            }
         }
         Some("G") => {
             // one more attempt when the scenario could not start (session setup on a stalled machine)
